@@ -222,6 +222,8 @@ pub fn mutants(p: &Parent) -> Vec<Mutant> {
     // inserted invalid statements
     // a code label that is not also the name of a procedure (the two name spaces are separate)
     let some_label = code_labels.iter().map(|(_, n)| n.as_str()).find(|n| *n != "start" && !procs.iter().any(|(_, p)| p == n)).unwrap_or("start").to_string();
+    // a procedure that is not also the name of a label: jumping to it is a jump to an undefined label
+    let some_proc: Option<String> = procs.iter().map(|(_, p)| p.clone()).find(|p| !code_labels.iter().any(|(_, n)| n == p));
     let mut inserted: Vec<(&'static str, String)> = vec![
         ("code-label-as-data-operand", format!("mov al, byte {}", some_label)),
         ("code-label-as-data-operand", format!("MOV AX, WORD {}", some_label)),
@@ -234,6 +236,7 @@ pub fn mutants(p: &Parent) -> Vec<Mutant> {
         ("call-non-procedure", format!("call {}", some_label)),
         ("call-non-procedure", "call nosuch".into()),
         ("call-non-procedure", "CALL d_0".into()),
+        ("call-non-procedure", format!("call {}", LBL)),
         ("two-memory-operands", "mov byte [bx], byte [si]".into()),
         ("two-memory-operands", "add word [1], word [2]".into()),
         ("two-memory-operands", "xchg byte [bx], byte [si]".into()),
@@ -298,6 +301,11 @@ pub fn mutants(p: &Parent) -> Vec<Mutant> {
         ("unsupported-directive", "equ x 5".into()),
         ("unsupported-directive", "section data".into()),
     ];
+    if let Some(pn) = &some_proc {
+        for mn in ["jmp", "jz", "loop", "JNBE", "jcxz"] {
+            inserted.push(("undefined-jump-target", format!("{} {}", mn, pn)));
+        }
+    }
     let toplevel_only: Vec<(&'static str, String)> = vec![
         ("data-directive-after-code", "db 5".into()),
         ("data-directive-after-code", "late: dw 1".into()),
